@@ -2,7 +2,6 @@ package props
 
 import (
 	"bufio"
-	"errors"
 	"fmt"
 	"io"
 	"sort"
@@ -52,7 +51,7 @@ func (c07) Info() core.Info {
 			"pointer_field is 0 (the statement does not quantify over pointer_field for the PAT) and program numbers are distinct",
 			"after an injected reader error ReadPAT may return that error or the exact answer; nothing else is relaxed",
 		},
-		RequiredProbes: []string{"entries_0", "entries_1_program", "entries_1_network", "entries_ge3", "entries_42", "pid_gt_255", "pat_after_foreign", "no_pat", "eof_inside_pat", "one_byte_reads", "second_pat_ignored", "pat_with_af", "caller_scribbles_program_map", "held_pat_rechecked", "af_only_packet_before_pat", "buffer_reused_for_next_pat", "pat_after_70000_packets", "reader_is_a_bufio_reader", "bufio_reader_and_first_packet_pid_4_to_15", "payload_of_192_bytes_with_0x47_at_byte_4"},
+		RequiredProbes: []string{"entries_0", "entries_1_program", "entries_1_network", "entries_ge3", "entries_42", "pid_gt_255", "pat_after_foreign", "no_pat", "eof_inside_pat", "one_byte_reads", "second_pat_ignored", "pat_with_af", "caller_scribbles_program_map", "held_pat_rechecked", "af_only_packet_before_pat", "buffer_reused_for_next_pat", "pat_after_70000_packets", "reader_is_a_bufio_reader", "bufio_reader_and_first_packet_pid_4_to_15", "payload_of_192_bytes_with_0x47_at_byte_4", "current_next_indicator_0"},
 	}
 }
 
@@ -62,6 +61,7 @@ func (c07) Gen(r *core.Rand, tier string) interface{} {
 	s.PAT.TSID = r.Pick(r.Intn(65536), r.Intn(65536), r.Intn(65536), 0x4700|r.Intn(256), 0x0047, 0x4747)
 	s.PAT.Version = r.Intn(32)
 	s.PAT.Reserved = r.Pick(7, 7, 0, r.Intn(8))
+	s.PAT.HdrFlip = r.Pick(0, 0, 0, 0x01, 0x01, 0xC0, 0xC1, 0x40)
 	used := map[int]bool{}
 	for i := 0; i < n; i++ {
 		pn := r.Range(1, 65535)
@@ -403,6 +403,9 @@ func (c07) Exec(script interface{}, c *core.Ctx) {
 	if s.Default == "one" {
 		c.Probe("one_byte_reads")
 	}
+	if s.PAT.HdrFlip&1 != 0 {
+		c.Probe("current_next_indicator_0")
+	}
 	c.Unit("packets_on_wire", int64(len(stream)/188))
 	c.Unit("stream_bytes", int64(len(stream)))
 	sr := parties.NewSimReader(stream, s.Reads, c)
@@ -421,8 +424,7 @@ func (c07) Exec(script interface{}, c *core.Ctx) {
 		return
 	}
 	c.Log("readpat err=%v reads=%d pos=%d", err, sr.Calls, sr.Pos())
-	var inj *parties.InjectedErr
-	if errors.As(err, &inj) {
+	if parties.IsReaderFault(err) {
 		if sr.FirstErr == nil {
 			c.Fail("reader_error", "stream:error_from_nowhere", err, nil)
 		}
